@@ -622,3 +622,60 @@ def orc_c17(case, obs):
 prop("C17", ["c17_total_wf", "c17_provision", "c17_new_pdu", "c17_new_frag", "c17_take_frag", "c17_save_frag", "c17_take_after_save"],
      ["MEM"], no_cases, [orc_c17],
      exhaustive="MEM: all operation sequences of depth 4 (quick) / 5 (thorough) over an 8-operation alphabet on 1 and 2 slots")
+
+
+# ------------------------------------------------------------------------------------------------
+# C05 decap / peek total, consumption bounded and progressing
+# ------------------------------------------------------------------------------------------------
+def orc_c05(case, obs):
+    bad = []
+    for op, ob in zip(case.ops, obs):
+        t = op.split(" ")
+        if t[0] in ("DECAP", "DECAPL", "DECAPN", "PEEK", "PEEKL") and ob.startswith("PANIC"):
+            bad.append("panic: %s" % op[:100])
+            continue
+        if t[0] == "DECAP":
+            n = len(tok_bytes(t[1]))
+            _, d = kv(ob)
+            c = int(d.get("consumed", "-1"))
+            if c > n:
+                bad.append("consumed %d of a %d-byte buffer: %s" % (c, n, op[:80]))
+            if n > 0 and c < min(2, n):
+                bad.append("consumed %d of a %d-byte buffer (no progress): %s" % (c, n, op[:80]))
+    return bad
+
+
+def gen_c05(rng, t):
+    out = []
+    # every buffer of length 0..2 against receivers in several states
+    for k, (slots, nbuf) in enumerate([(1, 0), (1, 1), (2, 3), (0, 1)]):
+        c = Case("c05_short%d" % k)
+        c.add("DNEW %d 4 signal" % slots)
+        for j in range(nbuf):
+            c.add("DPROV %d" % (8 + j))
+        c.add("DECAP %s" % hx(build_first(1, 9, 0x0800, "B", b"\x01")))
+        c.add("DECAP -")
+        for a in range(256):
+            c.add("DECAP %02x" % a)
+        for w in range(0, 65536, 1 if t > 1 else 7):
+            c.add("DECAP %04x" % w)
+            if w % 4096 == 0:
+                c.add("DPROVBACK")
+        out.append(c)
+    # every header word followed by a few adversarial tails
+    for k in range(4 * t):
+        c = Case("c05_hdr%d" % k)
+        c.add("DNEW 2 8 %s" % MGR_ALL, "DPROV 8", "DPROV 9", "DPROV 70")
+        for w in range(k, 65536, 37):
+            tail = rng.choice([b"", b"\x00", b"\x01\x00\x02", rng.bytes(rng.range(0, 9)), b"\x00\x82", b"\x02\x00" + rng.bytes(4)])
+            c.add("DECAP %s" % hx(w.to_bytes(2, "big") + tail))
+            if rng.chance(0.1):
+                c.add("PEEK %s" % hx(w.to_bytes(2, "big") + tail))
+            if rng.chance(0.05):
+                c.add("DPROVBACK")
+        out.append(c)
+    return out
+
+
+prop("C05", ["c05_total", "c05_reachable", "c05_peek_total"], ["DEC"], gen_c05, [orc_c05],
+     exhaustive="all buffers of length 0..1 and (thorough: all, quick: every 7th) 2-byte buffers against four receiver states")
